@@ -157,6 +157,30 @@ func indTasks(r *core.Rand) []indTask {
 			return dig(o.Accepted, o.Ser, obsDigest(o.Val))
 		})
 	}
+	// large structures (several KiB): size-dependent code paths
+	{
+		signedTweak = func(model any) {
+			switch m := model.(type) {
+			case *rm.EncryptedLeaseSet:
+				m.Inner = r.Bytes(2048 + r.Pick(6000))
+			case *rm.RouterInfo:
+				for len(m.Addrs) < 30 {
+					m.Addrs = append(m.Addrs, gen.RouterAddress(r))
+				}
+			}
+		}
+		bigE, bigR := signedELS(r, 7, r.Chance(1, 2), 11), signedRouterInfo(r, 7)
+		signedTweak = nil
+		pe, pr := lib.ByNameCached("encrypted_leaseset.ReadEncryptedLeaseSet"), lib.ByNameCached("router_info.ReadRouterInfo")
+		add("verify/large-encleaseset", func() string {
+			o := pe.Fn(append([]byte(nil), bigE.bytes...))
+			return dig(o.Accepted, o.Ser, obsDigest(o.Val))
+		})
+		add("verify/large-rinfo", func() string {
+			o := pr.Fn(append([]byte(nil), bigR.bytes...))
+			return dig(o.Accepted, o.Ser, obsDigest(o.Val))
+		})
+	}
 	// near-collisions of the task above: the same signed content with a damaged signature, and cut
 	// inside the signature (whatever a successful verification leaves behind must not match these)
 	for k := 0; k < 2; k++ {
